@@ -264,7 +264,9 @@ func (a *arena) layoutClasses() []string {
 		for i := 0; i+1 < len(r.parts); i++ {
 			p, q := r.parts[i], r.parts[i+1]
 			switch {
-			case q.off == p.off+p.n && p.n > 0 && q.n > 0:
+			case q.off == p.off+p.n && (p.n == 0 || q.n == 0):
+				out = append(out, "layout.adjacent.empty-argument")
+			case q.off == p.off+p.n:
 				out = append(out, "layout.adjacent."+p.name+"|"+q.name)
 				if p.capEnd >= q.off+q.n {
 					out = append(out, "layout.adjacent-under-capacity."+p.name+"|"+q.name)
